@@ -785,7 +785,7 @@ theorem indexOK_fork {s : IState} (ok : IndexOK s) (f : FUid) (h' : HUid) (nm0 :
   | some i =>
     simp only [hi, Bool.and_eq_true, Bool.not_eq_true', List.contains_eq_mem, decide_eq_false_iff_not,
       Bool.or_eq_true, bne_iff_ne, ne_eq, Option.isNone_iff_eq_none] at hg
-    obtain ⟨hfresh, hp⟩ := hg
+    obtain ⟨⟨hfresh, hp⟩, _⟩ := hg
     have hnone : i.findHead h' = none := by
       cases hx : i.findHead h' with
       | none => rfl
@@ -1105,6 +1105,146 @@ theorem guard_mainRestart_after_dropHeads (s : IState) (f : FUid) (h : HUid) (nm
     {i : Inst} (hi : findInst s f = some i) (hl : i.status.listening = true) :
     (Op.mainRestart f h nm0).guard (step s (.dropHeads f)) = true := by
   simp [Op.guard, findInst_dropHeads s f hi, hl]
+
+
+/-! ### `NoPos`: finished or failed instances hold no position -/
+
+theorem noPos_of_insts_eq {s s' : IState} (h : s'.insts = s.insts) (np : NoPos s) : NoPos s' := by
+  intro f i hi; exact np f i (by rw [← findInst_of_insts_eq h]; exact hi)
+
+/-- an update of instance `f` keeps `NoPos` when the updated instance is not done or has no heads -/
+theorem noPos_modifyInst {s : IState} (np : NoPos s) (f : FUid) (g : Inst → Inst) (hg : ∀ i, (g i).uid = i.uid)
+    (h : ∀ i, findInst s f = some i → (g i).status.done = true → (g i).heads = []) : NoPos (modifyInst s f g) := by
+  intro f' i' hi' hd
+  rw [findInst_modifyInst _ _ _ _ hg] at hi'
+  by_cases e : f' = f
+  · subst e
+    simp only [if_true] at hi'
+    cases hx : findInst s f' with
+    | none => simp [hx] at hi'
+    | some i => simp [hx] at hi'; subst hi'; exact h i hx hd
+  · simp only [e, if_false] at hi'; exact np f' i' hi' hd
+
+theorem noPos_touchHead {s : IState} (np : NoPos s) (f : FUid) (h : HUid) (g : Head → Head) : NoPos (touchHead s f h g) := by
+  unfold touchHead
+  cases hi : findInst s f with
+  | none => exact np
+  | some i =>
+    simp only
+    cases hh : i.findHead h with
+    | none => exact np
+    | some hd =>
+      simp only
+      apply noPos_of_insts_eq (insts_headChanged _ _ _ _ _)
+      apply noPos_modifyInst np f _ (by intro i; rfl)
+      intro j hj hd'
+      have : j.heads = [] := np f j hj hd'
+      simp [Inst.modifyHead, this]
+
+/-- **T1** finished or failed instances hold no position: preserved by every guarded operation -/
+theorem noPos_step {s : IState} (np : NoPos s) (op : Op) (hg : op.guard s = true) : NoPos (step s op) := by
+  cases op with
+  | addInst f h nm0 =>
+    simp only [step]
+    apply noPos_of_insts_eq (insts_headChanged _ _ _ _ _)
+    intro f' i' hi' hd
+    unfold findInst at hi'
+    simp only [List.find?_append] at hi'
+    cases hx : List.find? (fun x => decide (x.uid = f')) s.insts with
+    | some j => rw [hx] at hi'; simp at hi'; subst hi'; exact np f' j hx hd
+    | none =>
+      rw [hx] at hi'; simp [List.find?] at hi'
+      split at hi'
+      · simp at hi'; subst hi'; simp [FlowStatus.done] at hd
+      · simp at hi'
+  | setPos f h p nm =>
+    simp only [step]; split
+    · exact np
+    · split
+      · exact np
+      · exact noPos_touchHead np _ _ _
+  | setStatus f h st nm =>
+    simp only [step]; split
+    · exact np
+    · split
+      · exact np
+      · exact noPos_touchHead np _ _ _
+  | fork f h' nm0 p nm =>
+    simp only [Op.guard] at hg
+    cases hi : findInst s f with
+    | none => simp [hi] at hg
+    | some i =>
+      simp only [hi, Bool.and_eq_true, Bool.not_eq_true'] at hg
+      have hnd : i.status.done = false := hg.2
+      have np1 : NoPos (modifyInst s f fun i => { i with heads := i.heads ++ [newHead h' nm0] }) := by
+        apply noPos_modifyInst np f _ (by intro i; rfl)
+        intro j hj hd
+        rw [hi] at hj; cases hj
+        simp only at hd; rw [hnd] at hd; cases hd
+      simp only [step]; split
+      · exact np1
+      · exact noPos_touchHead np1 _ _ _
+  | delHead f h =>
+    simp only [step]
+    apply noPos_modifyInst np f _ (by intro i; rfl)
+    intro j hj hd
+    have : j.heads = [] := np f j hj hd
+    simp [this]
+  | dropHeads f =>
+    simp only [step]
+    cases hi : findInst s f with
+    | none => exact np
+    | some i =>
+      simp only
+      obtain ⟨h1, _, _⟩ := foldl_rawRemove_spec f i.heads s
+      apply noPos_modifyInst (noPos_of_insts_eq h1 np) f _ (by intro i; rfl)
+      intro j _ _; rfl
+  | rmHead f h => simp only [step]; exact noPos_of_insts_eq (insts_rawRemove _ _) np
+  | clearHeads f =>
+    simp only [step]
+    apply noPos_modifyInst np f _ (by intro i; rfl)
+    intro j _ _; rfl
+  | mainRestart f h nm0 =>
+    simp only [step]
+    cases hi : findInst s f with
+    | none => exact np
+    | some i =>
+      simp only
+      apply noPos_modifyInst (noPos_of_insts_eq (insts_headChanged _ _ _ _ _) np) f _ (by intro i; rfl)
+      intro j _ hd; simp [FlowStatus.done] at hd
+  | setFlowStatus f st =>
+    simp only [step]
+    apply noPos_modifyInst np f _ (by intro i; rfl)
+    intro j hj hd
+    simp only at hd ⊢
+    simp only [Op.guard, hj, Bool.or_eq_true, beq_iff_eq, Bool.and_eq_true, bne_iff_ne, ne_eq, List.isEmpty_iff] at hg
+    rcases hg with (hg | hg) | hg
+    · subst hg; simp [FlowStatus.done] at hd
+    · exact hg
+    · apply np f j hj
+      have hl := hg.2
+      cases st <;> simp [FlowStatus.done] at hd <;> cases hs : j.status <;> simp_all [FlowStatus.listening, FlowStatus.done]
+  | removeInst f =>
+    simp only [step]
+    intro f' i' hi' hd
+    have hfind : findInst { s with insts := s.insts.filter (·.uid ≠ f) } f' = if f' = f then none else findInst s f' := by
+      unfold findInst
+      simp only [List.find?_filter]
+      by_cases e : f' = f
+      · subst e; simp
+      · simp only [e, if_false]
+        congr 1; funext x
+        by_cases e2 : x.uid = f' <;> simp [e2, e]
+    rw [hfind] at hi'
+    split at hi'
+    · cases hi'
+    · exact np f' i' hi' hd
+
+theorem noPos_init : NoPos {} := by intro f i h; simp [findInst] at h
+
+theorem noPos_foldl : ∀ (ops : List Op) (s : IState), NoPos s → AllGuards s ops → NoPos (ops.foldl step s)
+  | [], _, np, _ => np
+  | op :: ops, s, np, hg => noPos_foldl ops (step s op) (noPos_step np op hg.1) hg.2
 
 
 end CoreIndex
